@@ -173,7 +173,7 @@ example : wfRec Generated.params Generated.storedPointHeader
      ("rpki_notify", .ob (some ("https://h/n.xml".toList.map c))),
      ("update_status", .st true 1700000000 0)] = true := by decide
 
-/-- …and is encoded to the expected 52 octets. -/
+/-- …and is encoded to the expected 50 octets (1 + 4+17 + 4+15 + 1+8). -/
 example : (encodeRec Generated.params Generated.storedPointHeader
     [("manifest_uri", .b ("rsync://h/m/a.mft".toList.map c)),
      ("rpki_notify", .ob (some ("https://h/n.xml".toList.map c))),
